@@ -104,6 +104,30 @@ Definition trigger_length (full L0 : N) (oldEn first_half : bool) : N :=
   if first_half && (L2 =? full) then full - 1 else L2.                        (* full counter in the first half: one less *)
 
 (* ================================================================================================= *)
+(* Part 3 — C20: the sample clock and the mixer.
+   The APU's sample clock counts 1 .. 4194304 and restarts; a stereo pair is due whenever the count is a multiple
+   of 95.  With k clocks of the current second already consumed, the m-th clock from now carries the count
+   ((k + m - 1) mod 4194304) + 1. *)
+Definition sample_due (k m : N) : bool := (((k + m - 1) mod 4194304) + 1) mod 95 =? 0.
+
+(* pairs due among the first x clocks of the stream (x counted from a restart of the sample clock):
+   44150 per full second (= 4194304 / 95 rounded down), one per 95 clocks within a second *)
+Definition pairs_upto (x : N) : N := (x / 4194304) * 44150 + (x mod 4194304) / 95.
+
+(* pairs due among the next n clocks when k clocks of the current second are consumed *)
+Definition pairs_between (k n : N) : N := pairs_upto (k + n) - pairs_upto k.
+
+(* the mixer over exact rationals: each routed channel contributes its level, the sum is divided by 4 and scaled
+   by volume/8 and the fixed master volume 0.6 *)
+Open Scope Q_scope.
+Definition q_square (level volume : N) : Q := inject_Z (Z.of_N level) * (inject_Z (Z.of_N volume) / 8).
+Definition q_wave (sample : N) : Q := inject_Z (Z.of_N sample) / 15.
+Definition q_mix (b1 b2 b3 b4 : bool) (w1 w2 w3 w4 : Q) (vol : N) : Q :=
+  ((if b1 then w1 else 0) + (if b2 then w2 else 0) + (if b3 then w3 else 0) + (if b4 then w4 else 0)) / 4
+  * (inject_Z (Z.of_N vol) / 8 * (6 # 10)).
+Close Scope Q_scope.
+
+(* ================================================================================================= *)
 (* Part 4 — C21: waveform generators as functions of the number of elapsed clock cycles.
    n counts the clock cycles after the machine cycle in which the trigger was written (n = 1 is the first). *)
 
